@@ -100,7 +100,7 @@ func (s AtomSet) list() []string {
 	}
 	var l []string
 	for a := range s.m {
-		if !strings.HasPrefix(a, "nn:") {
+		if !strings.HasPrefix(a, "nn:") && !strings.HasPrefix(a, "v:") {
 			l = append(l, a)
 		}
 	}
@@ -115,7 +115,7 @@ func (s AtomSet) exported() AtomSet {
 	}
 	c := emptySet()
 	for a := range s.m {
-		if !strings.HasPrefix(a, "nn:") && !strings.Contains(a, "=>") {
+		if !strings.HasPrefix(a, "nn:") && !strings.HasPrefix(a, "v:") && !strings.Contains(a, "=>") {
 			c.m[a] = true
 		}
 	}
@@ -186,6 +186,9 @@ type AtomDef struct {
 	Exec func(m *Matcher, call ssa.CallInstruction) bool
 	// ExecAny is called for every non-call instruction; the atom holds after it.
 	ExecAny func(m *Matcher, in ssa.Instruction) bool
+	// EdgeDyn returns dynamically named, function-local atoms (prefix "v:")
+	// established on this edge, e.g. bounds facts about a particular SSA value.
+	EdgeDyn func(m *Matcher, p Pred, holds bool) []Atom
 }
 
 // Derivation: Head holds wherever all of Body hold.
@@ -342,6 +345,10 @@ func (f *Flow) condGen(m *Matcher, cond ssa.Value) (g [2][]Atom, gs [2][]sumRef)
 		holdIdx, otherIdx = 1, 0
 	}
 	for _, ad := range f.RS.Atoms {
+		if ad.EdgeDyn != nil {
+			g[holdIdx] = append(g[holdIdx], ad.EdgeDyn(m, pred, true)...)
+			g[otherIdx] = append(g[otherIdx], ad.EdgeDyn(m, pred, false)...)
+		}
 		if ad.Edge == nil {
 			continue
 		}
